@@ -95,9 +95,12 @@ impl Node {
     #[verifier::external_body] pub fn local_request(&mut self) ensures final(self).handle == old(self).handle { unimplemented!() }
     #[verifier::external_body] pub fn addr(&self) -> (r: SocketAddr) ensures r == self.handle.addr { unimplemented!() }
     #[verifier::external_body] pub fn handle(&self) -> (r: &NodeHandle) ensures *r == self.handle { unimplemented!() }
-    #[verifier::external_body] pub fn status(&self) -> NodeStatus { unimplemented!() }
-    #[verifier::external_body] pub fn recently_requested_from(&self) -> bool { unimplemented!() }
+    #[verifier::external_body] pub fn status(&self) -> (r: NodeStatus) ensures r == spec_status(*self) { unimplemented!() }
+    #[verifier::external_body] pub fn recently_requested_from(&self) -> (r: bool) ensures r == spec_recent(*self) { unimplemented!() }
 }
+/// what Node::status / Node::recently_requested_from report (proved equal to the BEP5 status function in unit `routing`)
+pub uninterp spec fn spec_status(n: Node) -> NodeStatus;
+pub uninterp spec fn spec_recent(n: Node) -> bool;
 #[verifier::external_body]
 pub struct ClosestNodes<'a> { p: core::marker::PhantomData<&'a Node> }
 impl<'a> Iterator for ClosestNodes<'a> {
